@@ -101,6 +101,13 @@ def name_call(E, n, st, name):
             else:
                 card = z3.Function("card_" + T._sname(o.ty.sort), o.ty.sort, I)
                 raise Unsupported("len() of %s" % o.ty)
+        elif name == "max" and len(args) == 1 and "default" in kw and kw["default"].ty is INT:
+            sq, v = E.seq_of(s1, args[0])
+            if sq.elem is not INT: raise Unsupported("max() of %s" % sq.elem)
+            r = E.fresh("max", I); i = E.fresh("i", I)
+            s1.pc.append(z3.ForAll([i], z3.Implies(z3.And(0 <= i, i < sq.len(v)), sq.arr(v)[i] <= r)))
+            s1.pc.append(z3.If(sq.len(v) == 0, r == kw["default"].v, z3.Exists([i], z3.And(0 <= i, i < sq.len(v), sq.arr(v)[i] == r))))
+            yield s1, SV(r, INT)
         elif name in ("min", "max") and len(args) == 2 and all(a.ty is INT for a in args):
             a, b = args
             yield s1, SV(z3.If((a.v <= b.v) if name == "min" else (a.v >= b.v), a.v, b.v), INT)
@@ -455,6 +462,14 @@ def container_method(E, n, st, recv, m, args, kw):
             st.pc.append(z3.ForAll([a], nn[a] == z3.And(nodes[a], z3.Not(rm[a]))))
             st.pc.append(z3.ForAll([a, b], ne[a][b] == z3.And(ed[a][b], z3.Not(rm[a]), z3.Not(rm[b]))))
             E.put_set(st, recv, nn); E.put_edges(st, recv, ne); yield st, SV(NULL, NONE); return
+        if m == "in_edges" and len(args) == 1:
+            x = E.coerce(args[0], ct.elem).v
+            pt = TupT([ct.elem, ct.elem]); T.register_sort(pt.sort)
+            def mk(s_):
+                e = E.fresh("e", pt.sort); arr = E.fresh("inedges", z3.ArraySort(pt.sort, B))
+                s_.pc.append(z3.ForAll([e], arr[e] == z3.And(pt.get(e, 1) == x, ed[pt.get(e, 0)][pt.get(e, 1)])))
+                return SV(arr, SetVT(pt))
+            yield from E.fork_exc(st, nodes[x], mk, "NetworkXError", n); return
         if m == "out_degree":
             x = E.coerce(args[0], ct.elem).v
             od = z3.Function("out_degree_" + T._sname(es), ed.sort(), es, I)
